@@ -252,6 +252,8 @@ def fll_mutants(doc: str):
             if not toks[k]:
                 continue
             yield "truncate", lines[:i] + [" ".join(toks[:k])]
+            if k >= 2:
+                yield "truncate-line", lines[:i] + [" ".join(toks[:k])] + lines[i + 1:]  # the rest of the document stays
             for sub in ("Zz", "zz", "", "7", "true", "-", "nan"):
                 if sub != toks[k]:
                     yield "substitute", lines[:i] + [" ".join(toks[:k] + [sub] + toks[k + 1:])] + lines[i + 1:]
@@ -297,6 +299,15 @@ def check_fll(acc: Acc, text: str, edit: str) -> None:
             exported = fl.FllExporter().to_string(obj)
             fl.FllImporter().from_string(exported)
             acc.traces += 1
+            # ... and evaluated: an imported engine that reports itself ready processes finite inputs
+            if obj.rule_blocks and obj.is_ready([]):
+                for iv in obj.input_variables:
+                    iv.value = 0.25
+                try:
+                    obj.process()
+                    acc.cls("fll_processed")
+                except ALLOWED_REJECTIONS:
+                    acc.cls("fll_late_value_error")  # e.g. a formula naming an unknown variable: a clean value error, only later
         except Exception as ex:  # noqa: BLE001
             acc.violate("accepted-but-unusable", {"type": type(ex).__name__, "family": "fll"}, case, "exportable",
                         f"{type(ex).__name__}: {ex}", f"imported FLL ({edit}) cannot be exported and re-imported: {type(ex).__name__}: {str(ex)[:100]}")
@@ -455,7 +466,7 @@ def summarize(tier: str, seed: int, merged: dict) -> dict:
             f"{ANTE_TOKENS}; consequent: length <= {L} over {CONS_TOKENS} (x 5 weight tails up to length 4); edits: every "
             "single edit at every position of the valid rules printed from all trees with <= 3 leaves (2 renderings x 2 "
             "consequents; quick keeps every 4th of the long ones); fll: 2 documents x every line deletion/duplication/move, "
-            "truncation at every token, 7 substitutions per token, misspelt keys, each imported with newline and with ';' statement separators; depth 8/64/256; "
+            "truncation of the document and of each line at every token, 7 substitutions per token, misspelt keys, each imported with newline and with ';' statement separators; depth 8/64/256; "
             f"termless: all token strings of length <= {L} over {TERMLESS_TOKENS} mentioning the term-less variable e. states = texts, "
             "transitions = load attempts, traces = accepted texts re-exported/re-created/evaluated; non-trivial = text that "
             "is not a sentence of the reference grammar"
